@@ -216,6 +216,9 @@ class ExprMixin:
         for v in reversed(vals[:-1]):
             t = as_bool(v)
             res = self.ite(t, res, v) if is_and else self.ite(t, v, res)
+        ts = [as_bool(v) for v in vals]
+        if isinstance(res, ZV):
+            res.truth = z3.And(*ts) if is_and else z3.Or(*ts)
         return res
 
     def e_UnaryOp(self, node):
@@ -251,6 +254,10 @@ class ExprMixin:
             return ZI(as_int(a) * as_int(b))
         if isinstance(op, ast.Mod) and is_prim_str(a):
             return self.str_percent(a, b)
+        if isinstance(op, ast.BitAnd) and isinstance(a, ZV):
+            h = R.METHODS.get((base_tag(a.tag), "__and__"))
+            if h:
+                return h(self, a, [b], {}, node)
         raise Unsupported("binop %s on %r, %r (line %d)" % (type(op).__name__, a, b, node.lineno))
 
     def str_percent(self, a, b):
@@ -454,10 +461,26 @@ class ExprMixin:
             return ZS(z3.SubString(s, a, z3.If(b >= a, b - a, 0)))
         sv = self.seq_of(base)
         n = L.len_(sv.term)
-        a = self.clamp(as_int(lo), n) if lo is not None else z3.IntVal(0)
-        b = self.clamp(as_int(hi), n) if hi is not None else n
-        b = z3.If(b >= a, b, a)
+        a = self.clamp_if_needed(as_int(lo), n) if lo is not None else z3.IntVal(0)
+        b = self.clamp_if_needed(as_int(hi), n) if hi is not None else n
+        if not self.entails(b >= a):
+            b = z3.If(b >= a, b, a)
         return ZV(L.seq_slice(sv.term, a, b), sv.tag)
+
+    def clamp_if_needed(self, i, n):
+        if self.entails(z3.And(0 <= i, i <= n)):
+            return i
+        return self.clamp(i, n)
+
+    def entails(self, cond, timeout_ms=1000):
+        """Cheap semantic check under the current path condition and axioms (used only to pick a simpler,
+        equivalent encoding; `False` is always a safe answer)."""
+        st = self.st
+        if st.qctx:
+            return False
+        r = self.prover.check(st.pc, cond, want_model=False, timeout_ms=timeout_ms)
+        self.prover.solver.set("timeout", self.prover.timeout_ms)
+        return r[0] == "unsat"
 
     @staticmethod
     def clamp(i, n):
